@@ -90,3 +90,17 @@ Example C13_signed_1995 :
   keyword_allowed (guard_table_of None) keywords_1800_2017 "logic" = true /\
   keyword_allowed (guard_table_of (Some V_Ieee1364_1995)) keywords_1800_2017 "1step" = true.
 Proof. vm_compute. repeat split; reflexivity. Qed.
+
+(* the names of compiler directives pass inside a directive whatever set is in force: `include is a directive also
+   under "1364-1995" and "1364-2001-noconfig", where the word include is not reserved (the guard carries that exemption:
+   regenerated flag) -- while outside directives the guard is the one of the theorems above *)
+Theorem C13_directive_names_pass_in_directives : guard_exempts_directive_names = true /\
+  forall v t, mem t keywords_directive = true ->
+    keyword_allowed_at true keywords_directive (guard_table_of v) keywords_1800_2017 t = true.
+Proof. split; [vm_compute; reflexivity|]. intros v t. apply directive_name_always_allowed. Qed.
+
+Example C13_include_under_1995 :
+  keyword_allowed (guard_table_of (Some V_Ieee1364_1995)) keywords_1800_2017 "include" = false /\
+  keyword_allowed_at true keywords_directive (guard_table_of (Some V_Ieee1364_1995)) keywords_1800_2017 "include" = true /\
+  keyword_allowed_at false keywords_directive (guard_table_of (Some V_Ieee1364_1995)) keywords_1800_2017 "include" = false.
+Proof. vm_compute. repeat split; reflexivity. Qed.
